@@ -166,7 +166,7 @@ func pass1(j job) (res result) {
 			res.Viols = append(res.Viols, viol(j, i, ps)...)
 			return
 		}
-		qc, e := w.A.Certify(p, 0, nil, 0)
+		qc, e := w.A.Certify(p, 0, out.signers, 0)
 		if e != nil {
 			res.HarnessErr = "certify: " + e.Error()
 			return
